@@ -94,7 +94,7 @@ Section Complete.
       (* tracking the run by the simulator *)
       assert (Htrack : FrameRun.ok_op n o1 -> exists T1 Ti1, Run.good n T1 Ti1 /\ Run.Inv n T1 Sa1).
       { intros Hop. destruct (RunComplete.step_complete n T Ti S o1 r1 Sa1 Hop GT I Hastep) as ([T1 Ti1] & _ & G1 & I1). now exists T1, Ti1. }
-      destruct o as [e q|e a b|sgn P|F k|F v]; cbn [SpecSem.sop_ok SpecSem.sexec SpecSem.tr] in *.
+      destruct o as [e q|e a b|sgn P|F k|F v|F]; cbn [SpecSem.sop_ok SpecSem.sexec SpecSem.tr] in *.
       + destruct Ho as (Hq & Hin & Hu). inversion Hre as [| ? C Ci ? l' Hre' | |]; subst.
         destruct (SpecSem.gate1_sound n ev (evk_fflip B kf) e q (Stab.gens st) Hq Hin Hu Hgs) as (Hgs1 & S1 & Hs1 & He1).
         assert (Hop : FrameRun.ok_op n (TableGood.table_op1 q e)) by (split; [apply TableGood.table_gate_good1| apply TableGood.table_gate_good1_inv]; assumption).
@@ -148,6 +148,15 @@ Section Complete.
         pose proof (sem_step_same n _ _ _ _ _ _ Hop He Hastep Hs1) as Hsame.
         cbn [push snd]. exact (IH (Stab.pauli_if F (SpecSem.varf v) st) recs Sa1 T1 Ti1 la S' Hok' Hgs1
                  (SpecSem.eqs_trans n _ _ _ Hsame He1) G1 I1 Hre' Harest Hag).
+      + revert Ho. inversion Hre as [| ? C0 Ci0 ? l' Hre' | |]; subst. intros Ho.
+        destruct (SpecSem.pauli_if_sound n ev (evk_fxor B kf) F (Stab.fconst true) st Hgs Ho) as (Hgs1 & S1 & Hs1 & He1).
+        assert (Ec : ev (Stab.fconst true) = true) by (change (Stab.fconst true) with (Stab.fflip Stab.fzero true); now rewrite evk_fflip, evk_fzero).
+        rewrite Ec in Hs1.
+        assert (Hop : FrameRun.ok_op n (Run.OpU (FrameProg.cpw (denote (false, F)) true) (FrameProg.cpw (denote (false, F)) true))) by (split; apply FrameProg.cpw_good; exact Ho).
+        destruct (Htrack Hop) as (T1 & Ti1 & G1 & I1).
+        pose proof (sem_step_same n _ _ _ _ _ _ Hop He Hastep Hs1) as Hsame.
+        cbn [push snd]. exact (IH (Stab.pauli_if F (Stab.fconst true) st) recs Sa1 T1 Ti1 la S' Hok' Hgs1
+                 (SpecSem.eqs_trans n _ _ _ Hsame He1) G1 I1 Hre' Harest Hag).
   Qed.
 End Complete.
 Print Assumptions records_are_evaluations.
@@ -167,8 +176,9 @@ Definition lookup (L : list (nat * bool)) (i : nat) : bool :=
 
 Lemma ncoins_step o s : Stab.ncoins (fst s) <= Stab.ncoins (fst (SpecSem.sexec o s)).
 Proof.
-  destruct s as [st recs]. destruct o as [e q|e a b|sgn P|F k|F v]; cbn [SpecSem.sexec fst Stab.ncoins]; try lia.
+  destruct s as [st recs]. destruct o as [e q|e a b|sgn P|F k|F v|F]; cbn [SpecSem.sexec fst Stab.ncoins]; try lia.
   - unfold Stab.measure. destruct (existsb (Stab.is_anti P) (Stab.gens st)); cbn [fst Stab.ncoins]; lia.
+  - unfold Stab.pauli_if. cbn. lia.
   - unfold Stab.pauli_if. cbn. lia.
   - unfold Stab.pauli_if. cbn. lia.
 Qed.
@@ -195,7 +205,7 @@ Proof.
     pose proof (ncoins_step o s) as Hmono. pose proof (ncoins_run ops (SpecSem.sexec o s)) as Hmono2.
     assert (Hpre' : forall p, In p pre -> fst p < Stab.ncoins (fst (SpecSem.sexec o s))) by (intros p Hp; specialize (Hpre p Hp); lia).
     assert (Hbase' : base <= Stab.ncoins (fst (SpecSem.sexec o s))) by lia.
-    destruct o as [e q|e a b|sgn P|F k|F v]; cbn [SpecSem.tr] in Hre.
+    destruct o as [e q|e a b|sgn P|F k|F v|F]; cbn [SpecSem.tr] in Hre.
     + split; [exact Logic.I|]. inversion Hre; subst. cbn [app]. eapply IH; eassumption.
     + split; [exact Logic.I|]. inversion Hre; subst. cbn [app]. eapply IH; eassumption.
     + inversion Hre as [| | ? M b0 ? l' Hre' |]; subst. destruct s as [st recs]. cbn [fst snd] in *.
@@ -213,6 +223,7 @@ Proof.
       * split; [exact Logic.I|]. cbn [app]. eapply IH; eassumption.
     + split; [exact Logic.I|]. inversion Hre; subst. cbn [app]. eapply IH; eassumption.
     + split; [exact Logic.I|]. inversion Hre; subst. cbn [app]. eapply IH; eassumption.
+    + split; [exact Logic.I|]. inversion Hre; subst. cbn [app]. eapply IH; eassumption.
 Qed.
 
 (* realisations depend on the external bits only at the variables the program uses *)
@@ -223,7 +234,7 @@ Lemma realize_ext base ext1 ext2 ops : (forall v, v < base -> ext1 v = ext2 v) -
 Proof.
   intros He. induction ops as [|o ops IH]; intros Hv rec la Hre; cbn [map] in *.
   - inversion Hre; subst. constructor.
-  - destruct o as [e q|e a b|sgn P|F k|F v]; cbn [SpecSem.tr vars_below] in *; inversion Hre; subst; try (constructor; now apply IH).
+  - destruct o as [e q|e a b|sgn P|F k|F v|F]; cbn [SpecSem.tr vars_below] in *; inversion Hre; subst; try (constructor; now apply IH).
     + match goal with H : FrameProg.realize ext1 rec (map _ ops) ?l0 |- _ =>
         exact (FrameProg.RF ext2 rec (denote (false, F)) (FrameProg.CRec k) _ _ (IH Hv rec l0 H)) end.
     + destruct Hv as [Hlt Hv]. cbn [FrameProg.cval]. rewrite (He v Hlt).
